@@ -22,6 +22,8 @@ EXPLANATION = (
 EXPLANATION_ADDED = (' (R2 is decided as a truth table over the comparison atoms of the outcomes: equal fields -> equal; a difference in any one field, another class, or a comparison that raises -> unequal.) (R5 is decided on the list term of the returned object.) (R6) the objects the DS9 reader itself stores in visual (point symbol markers) survive deepcopy as equal values.'
                      ' In R2 side tests on a field (its type, its unit) may go either way and a comparison within a tolerance counts as passable by differing values; the angular parameters are Quantities on both sides.')
 EXPLANATION += EXPLANATION_ADDED
+EXPLANATION_ADDED3 = (' (R5 also) copy.copy(Regions) — the `__copy__` the class defines or inherits — binds a new list, so appending to the copy does not change the original.')
+EXPLANATION += EXPLANATION_ADDED3
 TRUSTED = ['copy.deepcopy yields an equal object sharing no mutable state', 'list slicing / list.copy() build a new list']
 ASSUMPTIONS = ['descriptor __set__ stores the value it validated (C17.R2)']
 
